@@ -38,16 +38,17 @@ type Op struct {
 }
 
 type Prog struct {
-	Replicas int   `json:"replicas"`
-	Writers  []int `json:"writers"` // initial writer per replica
-	Order    int   `json:"order"`   // 0 lww, 1 hash
-	Codec    int   `json:"codec"`   // world.Codec
-	Ops      []Op  `json:"ops"`
-	Sync     []int `json:"sync,omitempty"`   // choices for the final complete exchange (empty: no exchange)
-	Clocks   []int `json:"clocks,omitempty"` // initial clock time per replica (LogOptions.Clock)
-	Conc     []int `json:"conc,omitempty"`   // LogOptions.Concurrency per replica (0 = default)
-	Preload  []int `json:"preload,omitempty"` // per replica: starts with the first n entries of one long shared history (large logs)
-	ClockIDs []int `json:"clockIds,omitempty"` // id carried by the LogOptions.Clock of a replica with an initial clock: 0 its own key, 1 another writer's key, 2 empty
+	Replicas      int   `json:"replicas"`
+	Writers       []int `json:"writers"` // initial writer per replica
+	Order         int   `json:"order"`   // 0 lww, 1 hash
+	Codec         int   `json:"codec"`   // world.Codec
+	Ops           []Op  `json:"ops"`
+	Sync          []int `json:"sync,omitempty"`          // choices for the final complete exchange (empty: no exchange)
+	Clocks        []int `json:"clocks,omitempty"`        // initial clock time per replica (LogOptions.Clock)
+	Conc          []int `json:"conc,omitempty"`          // LogOptions.Concurrency per replica (0 = default)
+	Preload       []int `json:"preload,omitempty"`       // per replica: starts with the first n entries of one long shared history (large logs)
+	ReplicaOrders []int `json:"replicaOrders,omitempty"` // SortFn of replica i when it differs from the world's (-1 / absent: the world's ordering)
+	ClockIDs      []int `json:"clockIds,omitempty"`      // id carried by the LogOptions.Clock of a replica with an initial clock: 0 its own key, 1 another writer's key, 2 empty
 }
 
 // toggleAC is a permissive access controller that can be told to deny everything (for "appenddenied").
@@ -261,7 +262,11 @@ func New(tb ev.TB, p *Prog) *World {
 			lo.Entries = entry.NewOrderedMapFromEntries(es)
 			lo.Heads = es[len(es)-1:] // with the heads given the log's clock starts at their time, as for a log that grew by appends
 		}
-		l, err := world.NewLog(w.Store.API(), wr, LogID, w.Order, w.IO, lo)
+		order := w.Order
+		if i < len(p.ReplicaOrders) && p.ReplicaOrders[i] >= 0 {
+			order = world.Ordering(p.ReplicaOrders[i] % 3)
+		}
+		l, err := world.NewLog(w.Store.API(), wr, LogID, order, w.IO, lo)
 		if err != nil {
 			tb.Fatalf("harness: NewLog: %v", err)
 		}
